@@ -18,9 +18,18 @@ MANIFEST_TEXT = ("Lean 4 theorems for all element sizes, alignments, pool sizes,
                  "suffices for T (MallocAllocator also for over-aligned T); DebugAllocator blocks end exactly at the guard page, "
                  "are aligned, overflow requests are refused, deallocate (with the size or with n = 0) finds every recorded "
                  "block, live blocks are pairwise disjoint and never reach into any guard page, and the munmap calls (incl. the "
-                 "destructor's) are a permutation of the mmap calls (same address, same length). The geometry, validation and "
+                 "destructor's) are a permutation of the mmap calls (same address, same length); in the compile-time configuration "
+                 "DEBUG_ALLOCATOR_KEEP (released entries stay recorded and mapped) every valid history - any number of "
+                 "allocate/release/allocate-again rounds - runs without abort, nothing is unmapped before destruction, recorded "
+                 "blocks (released or in use) never overlap, and the destructor's munmap calls are exactly the mmap calls of the "
+                 "history; a released entry whose range were handed out again makes the legal deallocate abort (why the mapping "
+                 "must be kept with the entry). The geometry, validation and "
                  "page formulas the theorems talk about are regenerated from the four headers on every run; the state machines "
-                 "are run against the real allocators (28 element types, sizeof 1..1000, alignof 1..128) on >=20k random "
+                 "(incl. what the #if DEBUG_ALLOCATOR_KEEP branch of deallocate does, the not_free bookkeeping and the destructor's "
+                 "loop) are run against the real allocators (28 element types, sizeof 1..1000, alignof 1..128; the debug manager "
+                 "also as an object owned by the case in both configurations of DEBUG_ALLOCATOR_KEEP so that its destructor runs, "
+                 "the pool also compiled with NDEBUG; allocation with a hint, through copies and through allocators converted from "
+                 "another element type) on >=20k random "
                  "histories per run with an interval-map/tag/ASan oracle (plus recorded operator new/mmap/munmap calls) deciding "
                  "the property itself.")
 MANIFEST_NOTE = ("Partial: malloc/aligned_alloc/operator new/mmap/mprotect are trusted (modelled as parameters); the proof is "
@@ -30,11 +39,14 @@ MANIFEST_NOTE = ("Partial: malloc/aligned_alloc/operator new/mmap/mprotect are t
                  "enforces C11's size%alignment rule that glibc/C17 do not). Requests between 64 MiB and 2^47 bytes (where the OS "
                  "decides) are not generated. Pool blocks are compared by (chunk, slot) name, so the LIFO order of the free list is "
                  "part of the compared behaviour. DebugAllocator aborts (wrong size/type on deallocate, lost allocations) are "
-                 "modelled but cannot be executed in-process.")
+                 "modelled but cannot be executed in-process. Compile-time configurations: DEBUG_ALLOCATOR_KEEP=0/1 and NDEBUG on/off "
+                 "are built and run (each in its own translation unit with the library's names renamed by macros); DEBUG_NEW_DELETE "
+                 "(global operator new/delete on the debug manager, = allocate<char>(size)/deallocate<char>(p[, size])) and the "
+                 "__APPLE__/_MSC_VER branches are not.")
 TECHNIQUE = "Lean 4 proof over allocator state machines + translator for geometry/validation/page formulas + trace correspondence with interval-map oracle under ASan"
 TRANSLATORS = [tr_c15.translate]
 HARNESS = dict(
-    sources=["cxx_c15.cc"],
+    sources=["cxx_c15.cc", "cxx_c15_keep.cc", "cxx_c15_ndebug.cc"],   # one translation unit per compile-time configuration
     repo_sources=["dune/common/debugallocator.cc", "dune/common/debugalign.cc"],
     libs=[],
     flags=["-O0"],   # ~150 small template instantiations: -O0 compiles in 20 s instead of 65 s; the sanitizers stay on
@@ -44,7 +56,11 @@ RULE = ("case = one allocator instance (kind x element type from 28 (sizeof,alig
         "long enough to fill two chunks (<=600); fill/drain/churn phases sized around elements+-1; free order random/oldest/"
         "newest/middle; refused requests interleaved: n != 1, free(nullptr), free(foreign / just behind / just in front of a "
         "chunk), allocate while operator new throws; n in {0,1,2,..} and around max_size, wrapping products, 2^63, SIZE_MAX; "
-        "debug sizes around page multiples, deallocate with the size or with 0; 3% requests of 4..64 MiB); distinct = distinct "
+        "debug sizes around page multiples, deallocate with the size or with 0; 3% requests of 4..64 MiB; 1 in 5 raw histories "
+        "are rounds of allocate/release of the same few sizes (second use), earlier request sizes are asked for again; "
+        "kinds dbgmgr <keep> = AllocationManager owned by the case in configuration DEBUG_ALLOCATOR_KEEP=<keep>, destroyed at "
+        "the end of the case; poolnd/pand = Pool/PoolAllocator compiled with NDEBUG (no foreign frees); raw ops h<n> "
+        "allocate(n, hint), c<n> allocate through a copy, g<k>/G<k> deallocate through a copy / a converted allocator); distinct = distinct "
         "op lines; non-trivial = every case whose oracle ran (unsupported configurations are trivial)")
 ASSUMPTIONS = [
     "the state machines in lean/DuneVerif/Model/C15.lean (intrusive pool IPool = transcription of Pool::grow/allocate/free; list model Pool proved equivalent; allocation list of the debug manager) are hand-written; their fidelity to the headers rests on this differential run, in which the driver executes the intrusive pool and cross-checks it against the list model",
@@ -55,6 +71,8 @@ ASSUMPTIONS = [
     "requests up to 64 MiB are expected to be served, requests of 2^47 bytes and more cannot be served; nothing in between is generated",
     "pool histories are valid: only blocks obtained from the pool and not yet freed are given back (plus nullptr / addresses outside every chunk, which must throw because the harness is compiled without NDEBUG)",
     "debug histories are valid: deallocate is called with pointers of live blocks and their size (or 0) and element type; mmap returns page-aligned ranges disjoint from the mappings in use",
+    "DEBUG_ALLOCATOR_KEEP: mmap returns ranges disjoint from every mapping that still exists, which includes the mappings of released blocks because the KEEP branch of deallocate does not unmap (generated constant dbgKeepFreeUnmaps = false, lemma keepUnmaps_eq); if the source starts to unmap there, the lemma and with it the obligations break",
+    "with NDEBUG the pool is only driven with valid frees and free(nullptr) (a foreign free is undefined behaviour there)",
 ]
 TRUSTED = ["g++/libstdc++, ASan/UBSan, glibc malloc_usable_size, /proc/self/maps as oracle inputs", "translator tr_c15.py",
            "harness/cxx_c15.cc (interval map, tags, replaced operator new/delete, interposed mmap/munmap, aligned_alloc shim) + Driver/C15.lean parsing/printing"]
